@@ -50,14 +50,49 @@ func absurdRec(c *Ctx, digits string, rest bool, tracks int) Rec {
 var (
 	refDivOnce sync.Once
 	refDiv     int
+	refLabels  []smf.Event
 )
 
-func refDivision(c *Ctx) int {
+func refRun(c *Ctx) {
 	refDivOnce.Do(func() {
 		r := c.crdEnv([]string{"write"}, []byte("- chord: {degree: \"1\", name: \"\"}\n  values: [\"1\"]\n"), nil, 30*time.Second)
-		refDiv = smf.Parse(r.Stdout).Division
+		f := smf.Parse(r.Stdout)
+		refDiv = f.Division
+		for _, e := range f.Events { // text / lyric / marker events of a document that has none: the writer's own labels
+			if e.Kind == smf.KindMeta && (e.A == 1 || e.A == 5 || e.A == 6) && e.Tick == 0 {
+				refLabels = append(refLabels, e)
+			}
+		}
 	})
+}
+
+func refDivision(c *Ctx) int {
+	refRun(c)
 	return refDiv
+}
+
+// docTexts: the text, lyric and marker events of a file without the writer's own labels (what a document without any text
+// gets at tick 0 all the same; each label taken off once)
+func docTexts(c *Ctx, f smf.File) []smf.Event {
+	refRun(c)
+	left := append([]smf.Event{}, refLabels...)
+	out := []smf.Event{}
+next:
+	for _, e := range f.Events {
+		if e.Kind != smf.KindMeta || (e.A != 1 && e.A != 5 && e.A != 6) {
+			continue
+		}
+		if e.Tick == 0 {
+			for i, l := range left {
+				if l.A == e.A && fmt.Sprint(l.Data) == fmt.Sprint(e.Data) {
+					left = append(left[:i], left[i+1:]...)
+					continue next
+				}
+			}
+		}
+		out = append(out, e)
+	}
+	return out
 }
 
 func writeExec(alsoSingle bool) func(c *Ctx, k Case) []Rec {
@@ -96,6 +131,11 @@ func allIntervalNotations(maxN int) []string {
 	out := []string{}
 	for n := 1; n <= maxN; n++ {
 		for _, m := range intervalMarks {
+			// (whether an interval below the unison exists -- b1, bb1, bbb1, bbb2 -- is left open by the statements:
+			// C15 "where that quality exists for n"; not generated)
+			if (n == 1 && strings.HasPrefix(m, "b")) || (n == 2 && m == "bbb") {
+				continue
+			}
 			out = append(out, fmt.Sprintf("%s%d", m, n))
 		}
 	}
